@@ -400,7 +400,18 @@ func runProperty(P *Program, pf *PropFile, findings *FindingsFile, timeout int, 
 	}
 	// lemmas
 	for _, ln := range pf.Lemmas {
-		a, q, err := proveLemma(P, ln, dir, timeout, cross)
+		region := ""
+		if f, ok := known["lemma/"+ln]; ok {
+			region = f.Region
+			// re-confirm that the finding still reproduces: the unrestricted lemma must not be provable
+			if ca, _, cerr := proveLemma(P, ln, dir, 5, false); cerr == nil && ca.Result == "unsat" {
+				rep.Lines = append(rep.Lines, fmt.Sprintf("NOTE property=%s listed finding no longer reproduces: lemma/%s", pf.ID, ln))
+			} else {
+				rep.Lines = append(rep.Lines, fmt.Sprintf("KNOWN-FINDING: property=%s %s [lemma/%s]", pf.ID, f.What, ln))
+				rep.Known = append(rep.Known, "lemma/"+ln)
+			}
+		}
+		a, q, err := proveLemmaRegion(P, ln, dir, timeout, cross, region)
 		rep.Obligations++
 		co := checkedObl{Name: "lemma/" + ln, Kind: "lemma"}
 		if err != nil {
